@@ -125,6 +125,7 @@ def gen_case(rng, i):
     # the batch size is a performance setting of fit(): poisson is also exercised with batches (the excitation model
     # couples the rows of a batch - C05 known finding - and is kept at its default of one)
     bs = [1, 1, 2, "full"][rng.integers(4)] if model == "poisson" else 1
+    s["registered"] = bool(rng.integers(5) == 0)      # register_targets(B); fit(model=...)  -> est.X, est.B
     s.update({"B": np.array(T), "classes": cls, "model": model, "wkind": wk, "bs": bs,
               "W": rng.uniform(0.3, 3, m) if wk == "receptor" else None})
     return s
@@ -149,7 +150,8 @@ def chk_case(inp, c):
     del c.events[:]          # only the events of the judged call
     bs = inp.get("bs", 1)
     c.cell("batch=" + ("1" if bs == 1 else "many"))
-    out = c.call(est.fit, B.copy(), model=model, batch_size=bs, _where=f"ReceptorEstimator.fit(model={model})")
+    out = gen.est_query(c, est, "fit", B.copy(), attrs=("X", "B"), registered=bool(inp.get("registered")), model=model,
+                        batch_size=bs, _where=f"ReceptorEstimator.fit(model={model})")
     if not c.require(isinstance(out, tuple) and len(out) == 2, "returns (X, B_pred)", mechanism="return-type"):
         return
     X, Bp = np.asarray(out[0], float), np.asarray(out[1], float)
